@@ -192,14 +192,14 @@ package scheduler
 // every node of the request that asks to be created gets exactly one answer - accepted when the partition took it,
 // rejected (with the node's own id) otherwise - and updates of existing nodes get none; no node is skipped
 //@ func (cc *ClusterContext) processNodes(request *si.NodeRequest)
-//@   props C13 C04
+//@   props C13 C04 C12
 //@   sweep
 //@   loop 1: exhaustive
 //@   loop 1: each (nodeInfo != nil && (nodeInfo.Action == 1 || nodeInfo.Action == 6)) ==> len(acceptedNodes) + len(rejectedNodes) == iter(len(acceptedNodes) + len(rejectedNodes)) + 1
 //@   loop 1: each !(nodeInfo != nil && (nodeInfo.Action == 1 || nodeInfo.Action == 6)) ==> len(acceptedNodes) == iter(len(acceptedNodes)) && len(rejectedNodes) == iter(len(rejectedNodes))
 //@   at[accepted:C04] append acceptedNodes#1: assert err == nil && elem != nil && elem.NodeID == nodeInfo.NodeID
 //@   at[rejected:C04] append rejectedNodes#1: assert err != nil && elem != nil && elem.NodeID == nodeInfo.NodeID
-//@   at[created:C04] call scheduler.ClusterContext.addNode#1: assert arg1 == nodeInfo && (nodeInfo.Action == 1 || nodeInfo.Action == 6) && arg2 == (nodeInfo.Action == 1)
+//@   at[created:C04,C12] call scheduler.ClusterContext.addNode#1: assert arg1 == nodeInfo && (nodeInfo.Action == 1 || nodeInfo.Action == 6) && arg2 == (nodeInfo.Action == 1)
 //@   holds cc != nil && cc.rmEventHandler != nil && request != nil && (forall i int :: 0 <= i && i < len(request.Nodes) ==> request.Nodes[i] != nil)
 
 // every submitted application gets exactly one answer: accepted only when the partition took it, rejected (under its
